@@ -38,6 +38,8 @@ type Script struct {
 	Quit    string `json:"quit"`               // reaction to SIGQUIT: default | ignore | delay
 	QuitNs  int64  `json:"quit_ns,omitempty"`  // delay: exits this long after the SIGQUIT
 	HoldNs  int64  `json:"hold_ns,omitempty"`  // a descendant of the main command keeps its output pipes open this long after it exited (Wait returns only then)
+	Chatty  bool   `json:"chatty,omitempty"`   // the main command writes a line to stderr every 20 ms for as long as it lives
+	BigIn   bool   `json:"big_in,omitempty"`   // 200 KB of standard input are pending for the main command (which never reads them)
 	Busy    bool   `json:"busy,omitempty"`     // the script first tries ("! exec") a program file that is still open for writing (ETXTBSY)
 	BigOut  bool   `json:"big_out,omitempty"`  // the main command prints 1.1 MB before it blocks
 	HoldG   bool   `json:"hold_g,omitempty"`   // early mode: the descendant holds the pipes for one and a half grace periods (as aimed; 150 ms without a deadline)
@@ -100,6 +102,8 @@ func genPlan(t *rapid.T, tier string) any {
 			s.HoldG = true
 		}
 		s.Busy = rapid.IntRange(0, 9).Draw(t, "busy") == 0
+		s.Chatty = rapid.IntRange(0, 7).Draw(t, "chatty") == 0
+		s.BigIn = rapid.IntRange(0, 11).Draw(t, "bigin") == 0
 		s.BigOut = rapid.IntRange(0, 24).Draw(t, "bigout") == 0
 		s.Code = rapid.SampledFrom([]int{0, 0, 0, 1}).Draw(t, "code")
 		s.Neg = rapid.IntRange(0, 4).Draw(t, "neg") == 0
@@ -208,11 +212,21 @@ func scriptText(i int, s Script, interruptAt, grace time.Duration) string {
 	if s.BigOut {
 		main += " bigout=1100000"
 	}
+	if s.Chatty {
+		main += fmt.Sprintf(" errevery=%dns", 20000000+31+i)
+	}
+	if s.BigIn {
+		b.WriteString("stdin big.txt\n")
+	}
 	b.WriteString(main + " out=main\n")
 	for k := 0; k < s.After; k++ {
 		fmt.Fprintf(&b, "probe after%d\nexec stub run=%dns\n", k, 3000000+211+19*k+i)
 	}
 	b.WriteString("probe end\n")
+	if s.BigIn {
+		b.WriteString("-- big.txt --\n")
+		b.WriteString(strings.Repeat(strings.Repeat("i", 99)+"\n", 2000))
+	}
 	return b.String()
 }
 
@@ -594,7 +608,7 @@ var harness = &simcheck.Harness{
 	Property: "C17",
 	Level:    "exploration",
 	Rule: "rapid draws a deadline distance (300 ms ... 10 min, or none), 1-3 scripts (quick commands, optional background process (exits on the deadline's interrupt; reacts to the clean-up's SIGINT promptly, after 3s / 40s, or never), one main foreground command that exits early, " +
-		"exits at the interrupt instant +-{1ns,1us,1ms,30ms}, or never, optionally with a descendant that holds its output pipes 0.5-40 ms longer; optionally printing 1.1 MB first; optionally a first line that tries a program file still open for writing; reaction to SIGQUIT: default, ignore, exit after a delay below / around / above the grace period; optional '!' prefix; lines after it), " +
+		"exits at the interrupt instant +-{1ns,1us,1ms,30ms}, or never, optionally with a descendant that holds its output pipes 0.5-40 ms longer; optionally printing 1.1 MB first, writing to stderr every 20 ms, or with 200 KB of standard input pending; optionally a first line that tries a program file still open for writing; reaction to SIGQUIT: default, ignore, exit after a delay below / around / above the grace period; optional '!' prefix; lines after it), " +
 		"verbosity, work-directory retention (none / TestWork / WorkdirRoot), the number of subtests the T lets run at once (all, 1 or 2), whether a no-deadline twin run is compared, optionally an earlier RunT call in the same process with another deadline distance, and a schedule; non-trivial = a foreground command was interrupted or several scripts ran; distinct by decision-trace hash",
 	Gen:     genPlan,
 	NewPlan: func() any { return &Plan{} },
